@@ -298,3 +298,56 @@ Theorem C18_constants_satisfy_side_conditions :
   (2 ^ Z.min 40 max_shift_go - 1) * default_rate_go < 2 ^ 63.
 Proof. exact Proofs.Retry.constants_satisfy_side_conditions. Qed.
 Print Assumptions C18_constants_satisfy_side_conditions.
+
+(* ================================================================================================================
+   calcExponentialRetry AS WRITTEN IN THE CURRENT SOURCE is the model's delay function [calc_real] of C18_delay_range
+   above (with the constant maxShiftUint32 of the current retry.go).  coq/Gen/ImplPureRetry.v is printed from retry.go by
+   harness/cmd/gotr on every run; [GoFrag2.run2] is the interpreter of the fragment it is written in (Model/GoFrag2.v: the
+   uint32 clamp, `1 << c` in a uint32 and the int64 product with EXPLICIT wraps); math/rand.Int63n is an oracle,
+   [PureSpec.rand_fenv rnd] = "Int63n(n) returns rnd n for n > 0 and panics otherwise", for ANY function rnd.
+   [PureSpec.delay_expected (Some r)] = the function returns r, no panic, no effect.
+   ================================================================================================================ *)
+From BB.Model Require GoFrag GoFrag2 PureSpec.
+From BB.Gen Require ImplPureRetry.
+From BB.Proofs Require RetryGen.
+
+(* For EVERY duration d, EVERY uint32 c and EVERY random source: the translated source returns exactly the model's delay. *)
+Theorem C18_delay_source_is_model : forall (rnd : Z -> Z) (d c : Z),
+  0 <= c < 2 ^ 32 ->
+  GoFrag2.run2 (PureSpec.rand_fenv rnd) BB.Gen.ImplPureRetry.calcExponentialRetry_def
+    (GoFrag.VInt d :: GoFrag.VInt c :: nil)
+  = PureSpec.delay_expected (calc_real max_shift_go (fun _ => rnd) 0 d c).
+Proof. exact Proofs.RetryGen.calc_src_eq_model. Qed.
+Print Assumptions C18_delay_source_is_model.
+
+(* Hence, under Int63n's contract (a HYPOTHESIS on the oracle): the translated source returns j slots of length d with
+   0 <= j <= 2^min(c,31) - 1, j being the oracle's answer to exactly n = 2^min(c,31); the product is taken in an int64 and is
+   the exact one (a whole number of slots, [slot_ok]) when the largest delay fits a Duration. *)
+Theorem C18_delay_source_in_slots : forall (rnd : Z -> Z) (d c : Z),
+  0 <= c < 2 ^ 32 ->
+  (forall n, 0 < n -> 0 <= rnd n < n) ->
+  let slots := 2 ^ Z.min c max_shift_go in
+  let run := GoFrag2.run2 (PureSpec.rand_fenv rnd) BB.Gen.ImplPureRetry.calcExponentialRetry_def
+               (GoFrag.VInt d :: GoFrag.VInt c :: nil) in
+  exists j, j = rnd slots /\ 0 <= j <= slots - 1 /\
+    run = GoFrag2.Returned (GoFrag.VInt (i64 (j * d))) nil /\
+    (0 < d -> (slots - 1) * d < 2 ^ 63 ->
+     run = GoFrag2.Returned (GoFrag.VInt (j * d)) nil /\ slot_ok d c (j * d) = true).
+Proof. exact Proofs.RetryGen.calc_src_slots. Qed.
+Print Assumptions C18_delay_source_in_slots.
+
+(* Not vacuous (oracle "always the largest value", n - 1, which satisfies the contract): c = 3 gives 7 slots; c = 40 and
+   c = 2^32 - 1 are clamped and give what c = 31 gives; a product that does not fit an int64 wraps. *)
+Theorem C18_delay_source_examples :
+  let mx := fun n => n - 1 in
+  let run := fun d c => GoFrag2.run2 (PureSpec.rand_fenv mx) BB.Gen.ImplPureRetry.calcExponentialRetry_def
+                          (GoFrag.VInt d :: GoFrag.VInt c :: nil) in
+  run 1000 3 = GoFrag2.Returned (GoFrag.VInt 7000) nil /\
+  run 1000 0 = GoFrag2.Returned (GoFrag.VInt 0) nil /\
+  run 1000 31 = GoFrag2.Returned (GoFrag.VInt 2147483647000) nil /\
+  run 1000 40 = GoFrag2.Returned (GoFrag.VInt 2147483647000) nil /\
+  run 1000 4294967295 = GoFrag2.Returned (GoFrag.VInt 2147483647000) nil /\
+  run (2 ^ 33) 31 = GoFrag2.Returned (GoFrag.VInt (- 2 ^ 33)) nil /\
+  (forall n, 0 < n -> 0 <= mx n < n).
+Proof. exact Proofs.RetryGen.calc_src_examples_run. Qed.
+Print Assumptions C18_delay_source_examples.
